@@ -165,6 +165,22 @@ Theorem C03_murmur3_table_chain : forall rows ks t name (chunks : list bytes),
   feed (prepared_partitioner (Some rows) true (Some (ks, t))) chunks = murmur3_token_spec (concat chunks).
 Proof. exact murmur3_table_chain. Qed.
 
+(* the same with the HashMap semantics spelled out: the row of (ks, t) that no other row of
+   (ks, t) follows decides ("last row wins"), whatever precedes it and whatever rows of other
+   tables follow *)
+Theorem C03_cdc_table_last_row : forall r1 r2 ks t name (chunks : list bytes),
+  forallb (fun x => negb (row_is ks t x)) r2 = true -> ends_with name cdc_suffix = true ->
+  feed (prepared_partitioner (Some (r1 ++ ((ks, t), Some name) :: r2)) true (Some (ks, t))) chunks
+  = cdc_token_spec (concat chunks).
+Proof. exact cdc_table_last_row. Qed.
+
+Theorem C03_murmur3_table_last_row : forall r1 r2 ks t name (chunks : list bytes),
+  forallb (fun x => negb (row_is ks t x)) r2 = true -> ends_with name murmur3_suffix = true ->
+  (Z.of_nat (length (concat chunks)) < 2 ^ 63)%Z ->
+  feed (prepared_partitioner (Some (r1 ++ ((ks, t), Some name) :: r2)) true (Some (ks, t))) chunks
+  = murmur3_token_spec (concat chunks).
+Proof. exact murmur3_table_last_row. Qed.
+
 (* ---- typed values (serialize_values + C01's encoder) ----------------------------------- *)
 (* the typed calculate_token / compute_partition_key are the token / serialized key of the
    serialized row ... *)
@@ -206,9 +222,10 @@ Theorem C03_token_as_u64 : forall p (key : bytes), bytes_ok key ->
   (if token_spec p key <? 0 then token_spec p key + 2 ^ 64 else token_spec p key)%Z.
 Proof. exact token_as_u64_exact. Qed.
 
-(* the shard computed from a hashed key is ScyllaDB's shard of the specified token *)
+(* the shard computed from a hashed key is ScyllaDB's shard of the specified token (msb <= 63 as in
+   C11: a larger msb_ignore overflows the Rust shift) *)
 Theorem C03_token_shard : forall p (chunks : list bytes) n msb,
-  (Z.of_nat (length (concat chunks)) < 2 ^ 63)%Z -> 0 < n ->
+  (Z.of_nat (length (concat chunks)) < 2 ^ 63)%Z -> 0 < n -> msb <= 63 ->
   shard_of n msb (feed p chunks) = spec_shard_of n msb (token_spec p (concat chunks)) /\
   shard_of n msb (feed p chunks) < n.
 Proof. exact feed_shard. Qed.
@@ -457,6 +474,8 @@ Print Assumptions C03_chunk_independent.
 Print Assumptions C03_marker_order.
 Print Assumptions C03_cdc_table_chain.
 Print Assumptions C03_murmur3_table_chain.
+Print Assumptions C03_cdc_table_last_row.
+Print Assumptions C03_murmur3_table_last_row.
 Print Assumptions C03_token_typed.
 Print Assumptions C03_typed_components.
 Print Assumptions C03_token_i64.
